@@ -97,10 +97,13 @@ fn lexer_for(text: &str) -> String {
     }
     // longest names first so that `t10` is not lexed as `t1` `0`
     names.sort_by(|a, b| b.len().cmp(&a.len()).then(a.cmp(b)));
-    let mut s = String::from("%%\n");
+    // start states that are never entered, and a rule conditioned on several of them: the list a rule
+    // carries is written into the generated module and must come out in the order of the source
+    let mut s = String::from("%s SA\n%x SB\n%s SC\n%s SD\n%%\n");
     for n in &names {
         s.push_str(&format!("{} \"{}\"\n", n, n));
     }
+    s.push_str("<SC,SA,SD,SB>~ ;\n<SB,SD>~~ <SA>;\n");
     s.push_str("[ \\n]+ ;\n");
     s
 }
